@@ -69,7 +69,13 @@ def check_case(case, ctx):
     nfiles = [len(set(lv["files"])) for lv in plot.levels[:L + 1]]
     ctx.nontrivial(L >= 1 and "partial-refinement" in labs and max(nfiles) >= 2)
     name = plot.fields[case["field"]]
-    argv = ["-v", name, "-y", "-d", case["dtype"]]
+    # the type is spelled as its name or as one of numpy's other spellings of the same type (the option is handed to numpy)
+    import zlib as _zl, json as _js
+    spellings = {"float64": ["float64", "float64", "f8", "double", "d", "<f8"], "float32": ["float32", "float32", "f4", "single", "f", "<f4"]}[case["dtype"]]
+    spelled = spellings[_zl.crc32(_js.dumps(case["spec"]["mesh"], sort_keys=True).encode()) % len(spellings)]
+    if spelled != case["dtype"]:
+        ctx.label("dtype-spelled:" + spelled)
+    argv = ["-v", name, "-y", "-d", spelled]
     if limit is not None:
         argv += ["-l", str(limit)]
     if case["default_out"]:
